@@ -36,3 +36,7 @@ Definition guess_resolvepackage_src : list dstmt :=
 Definition simple_resolvepackage_src : list dstmt :=
   [DGuard "has(r,importPath)" false (DVal "r[importPath]");
    DRet (DErr)].
+
+Definition packagepathorderless_src : list dstmt :=
+  [DGuard "eq(strings.Contains(pi,"".""),strings.Contains(pj,"".""))" true (DVal "strings.Contains(pj,""."")");
+   DRet (DVal "pi<pj")].
